@@ -331,10 +331,8 @@ pub(crate) fn mode(entry: &VfsEntry, octal: u32, sym: &str) -> RvResult<u32> {
     let mut apply = true;
     let mut chars: Vec<char> = sym.chars().rev().collect();
 
-    // Links themselves are never changed
-    if entry.is_symlink() {
-        return Ok(mode);
-    }
+    // Links themselves are never changed, a followed link stands for its target
+    let is_link = entry.is_symlink() && !entry.following();
 
     let mut state = State::Target;
     while let Some(mut c) = chars.pop() {
@@ -348,7 +346,7 @@ pub(crate) fn mode(entry: &VfsEntry, octal: u32, sym: &str) -> RvResult<u32> {
                     if c != 'd' && c != 'f' && c != 'a' && c != ':' {
                         return Err(VfsError::InvalidChmodTarget(sym.to_string()).into());
                     }
-                    if (c == 'd' && !entry.is_dir()) || (c == 'f' && !entry.is_file()) {
+                    if is_link || (c == 'd' && !entry.is_dir()) || (c == 'f' && !entry.is_file()) {
                         apply = false; // target mismatch so skip this clause only
                     } else if c == ':' {
                         state = State::Group;
